@@ -69,6 +69,8 @@ Next == /\ l <= Len(Trace) /\ l' = l + 1
              [] e.ev \in {"set_prec", "set_dps"} -> TraceSet(e)
              [] e.ev = "enter" -> TraceEnter(e)
              [] e.ev \in {"return", "raise"} -> TraceExit(e)
+             [] e.ev = "abandon" -> \* the harness gave up on this call (wall-clock safety net): the frame is not judged
+                  /\ Adopt(e.st) /\ stack' = SubSeq(stack, 1, Len(stack) - 1)
              [] e.ev = "act" -> TraceAct(e)
              [] e.ev = "same" -> TraceSame(e)
 Consumed == TLCGet("stats").diameter - 1 = Len(Trace)
